@@ -1,7 +1,7 @@
 (* Props/C32.v — Remapping CWL file values between directories is lossless.
    Only statements here; every proof is [exact <lemma of Remap/Proofs.v>].
-   Model: Remap/Model.v (byte level; remap_path as repaired by the fix; the code before it as
-   remap_path_before_fix).  Directories and names are arbitrary lists of components: any bytes (blanks, '%',
+   Model: Remap/Model.v (byte level; remap_path as repaired by the two fixes; the code before them as
+   remap_path_before_fix / remap_path_before_colon_fix).  Directories and names are arbitrary lists of components: any bytes (blanks, '%',
    UTF-8, ...) except '/', and not "", ".", ".." ([good]); [abs l] = "/" ++ join "/" l;
    [file_loc l] = "file://" ++ quote (abs l), the location StreamFlow builds for that path. *)
 From Coq Require Import List Bool Ascii NArith.
@@ -16,7 +16,6 @@ Proof. exact unquote_quote. Qed.
 (* a plain path below old_dir is mapped to the same relative position below new_dir ... *)
 Theorem C32_remap_plain : forall old new comps,
   forallb good old = true -> forallb good new = true -> forallb good comps = true -> comps <> [] ->
-  has_colon_slash (abs (old ++ comps)) = false ->
   remap_path (abs old) (abs new) (abs (old ++ comps)) = Some (abs (new ++ comps)).
 Proof. exact remap_path_plain. Qed.
 (* ... and a file:// location likewise, whatever bytes its name contains *)
@@ -41,26 +40,27 @@ Theorem C32_noncanonical_location_refuted :
   remap_path "/old" "/new" "file:///old/%7et%c3%a9" = Some "file:///new/~t%C3%A9" /\
   remap_path "/new" "/old" "file:///new/~t%C3%A9" = Some "file:///old/~t%C3%A9".
 Proof. vm_compute. repeat split; reflexivity. Qed.
-(* _partial: a plain path must not contain ":/" (a component ending in ':'), before or after the move:
-   remap_path takes such a path for a URL and returns it unchanged (see C32_colon_slash_refuted) *)
-Theorem C32_roundtrip_plain_partial : forall old new comps,
+(* a plain path is restored whatever bytes its components contain (':' at the end of a component included:
+   since the ":/" fix a string is a URL only if urlsplit finds a scheme in front of the ":/") *)
+Theorem C32_roundtrip_plain : forall old new comps,
   forallb good old = true -> forallb good new = true -> forallb good comps = true -> comps <> [] ->
-  has_colon_slash (abs (old ++ comps)) = false -> has_colon_slash (abs (new ++ comps)) = false ->
   exists p', remap_path (abs old) (abs new) (abs (old ++ comps)) = Some p' /\
              remap_path (abs new) (abs old) p' = Some (abs (old ++ comps)).
 Proof. exact roundtrip_plain. Qed.
-Theorem C32_colon_slash_refuted :
+(* the code before that fix took "/c:/f" for a URL without scheme and returned it unchanged *)
+Theorem C32_colon_slash_before_fix_refuted :
   exists old new comps,
     forallb good old = true /\ forallb good new = true /\ forallb good comps = true /\
-    remap_path (abs old) (abs new) (abs (old ++ comps)) = Some (abs (new ++ comps)) /\
-    remap_path (abs new) (abs old) (abs (new ++ comps)) <> Some (abs (old ++ comps)).
+    remap_path_before_colon_fix (abs old) (abs new) (abs (old ++ comps)) = Some (abs (new ++ comps)) /\
+    remap_path_before_colon_fix (abs new) (abs old) (abs (new ++ comps)) <> Some (abs (old ++ comps)) /\
+    remap_path (abs new) (abs old) (abs (new ++ comps)) = Some (abs (old ++ comps)).
 Proof.
   exists ["old"], ["c:"], ["f"]. repeat split; try (vm_compute; reflexivity). vm_compute. discriminate.
 Qed.
 
 (* other URL schemes are returned unchanged *)
 Theorem C32_other_schemes_unchanged : forall old new p,
-  has_colon_slash p = true -> scheme_of p <> "file" -> remap_path old new p = Some p.
+  has_colon_slash p = true -> scheme_of p <> "" -> scheme_of p <> "file" -> remap_path old new p = Some p.
 Proof. exact other_scheme_unchanged. Qed.
 
 (* the recursion through arrays, records, secondaryFiles and listing: a whole CWL value is restored as soon
@@ -71,9 +71,9 @@ Theorem C32_value_roundtrip : forall old new v v',
   (forall s, In s (fs_v v) -> forall s', remap_path old new s = Some s' -> remap_path new old s' = Some s) ->
   remap_token_value new old v' = Some v.
 Proof. exact token_value_roundtrip. Qed.
-(* composed with the path theorems: a value all of whose file strings are plain paths below old_dir (without ":/"),
+(* composed with the path theorems: a value all of whose file strings are plain paths below old_dir,
    canonical file:// locations below old_dir, or URLs of another scheme, is restored exactly.
-   _partial: the domain [in_domain] excludes ":/" inside plain paths and non-canonical location spellings; the
+   _partial: the domain [in_domain] excludes non-canonical location spellings; the
    forward remap is assumed to succeed (it fails only on non-string location/path or non-list secondaryFiles/listing) *)
 Theorem C32_value_roundtrip_in_domain_partial : forall old new v v',
   forallb good old = true -> forallb good new = true ->
@@ -116,8 +116,8 @@ Print Assumptions C32_remap_file.
 Print Assumptions C32_roundtrip_file.
 Print Assumptions C32_noncanonical_location_refuted.
 Print Assumptions C32_value_roundtrip_in_domain_partial.
-Print Assumptions C32_roundtrip_plain_partial.
-Print Assumptions C32_colon_slash_refuted.
+Print Assumptions C32_roundtrip_plain.
+Print Assumptions C32_colon_slash_before_fix_refuted.
 Print Assumptions C32_other_schemes_unchanged.
 Print Assumptions C32_percent_before_fix_refuted.
 Print Assumptions C32_value_roundtrip.
